@@ -264,7 +264,7 @@ def run(ctx):
         ok = len(cs) == 2 and cs[0].endswith('<impl str>::as_bytes') and cs[1].endswith('%s::from_bytes' % ty)
         if ok:
             t0 = [t for pos, t in b.iter_calls()][0]
-            ok = is_local_op(t0['args'][0]) and (t0['args'][0]['l'] == 1 or any((org[0] == 'param' and org[1] == 1) or (org[0] == 'place' and org[1]['l'] == 1) for org in origins(b, t0['args'][0])))
+            ok = is_local_op(t0['args'][0]) and (t0['args'][0]['l'] == 1 or any((org[0] == 'param' and org[1] == 1) or (org[0] == 'place' and org[1]['l'] == 1) or (isinstance(org[1], dict) and org[1].get('k') == 'assign' and org[1]['rv']['k'] == 'ref' and org[1]['rv']['pl']['l'] == 1) for org in origins(b, t0['args'][0])))
         C.check(ok, 'C18-SIB-fromstr', '%s|from_str-is-from_bytes-of-the-unchanged-text' % ty, 'FromStr for %s does more than from_bytes(input.as_bytes()) (%s): texts that are not exactly the text of an item convert' % (ty, [c.rsplit('::', 1)[-1] for c in cs]),
                 '%s:%d' % (b.file, b.line), sample={'type': ty, 'callees': [c.rsplit('::', 1)[-1] for c in cs]})
     return C.finish('Exact decision over the literal specification data extracted from the source text: every name of the three '
